@@ -5,7 +5,10 @@
 // shift / sample / derivative / changeDetect / stateCount / stateDuration / groupBy with
 // generated parameters and lambdas, over stream and batch edges, fed generated points (on stream
 // edges, in every third case, some points lack the host tag from() groups by: they form the group
-// in which host has the empty value).
+// in which host has the empty value; in every second stream case all points carry a third tag, az).
+// groupBy: a fixed or generated list of 1-3 tags in user order, or groupBy(*) with (two of three)
+// an exclude list of 1-3 distinct names in ANY order (user order, not only alphabetical; tags the
+// points carry and tags they do not carry), written as one .exclude() call or one call per name.
 // Oracle: reference interpreter over plain point structs written from the doc comments of
 // pipeline/*.go; every sink (trunk and each sibling) must equal the reference.
 package c10
@@ -39,7 +42,9 @@ type Node struct {
 	NonNeg bool     `json:"nonneg,omitempty"` // derivative
 	Star   bool     `json:"star,omitempty"`   // groupBy(*)
 	ByMeas bool     `json:"bymeas,omitempty"` // groupBy().byMeasurement()
-	Excl   []string `json:"excl,omitempty"`   // groupBy().exclude()
+	Excl   []string `json:"excl,omitempty"`   // groupBy().exclude(): the names in the order the user wrote them
+	// groupBy(): one .exclude() call per name instead of one call with all names
+	ExclCalls bool `json:"exclcalls,omitempty"`
 }
 
 type P struct {
@@ -51,6 +56,8 @@ type P struct {
 	// stream edges: the point does not carry the host tag (the tag from() groups by): it belongs
 	// to the group in which host has the empty value
 	NoHost bool `json:"nohost,omitempty"`
+	// stream edges: value of a third tag "az" (1, 2: "z1", "z2"); 0 = the point has no such tag
+	AZ int `json:"az,omitempty"`
 }
 
 type Case struct {
@@ -61,7 +68,7 @@ type Case struct {
 	Pts     []P      `json:"pts"`
 }
 
-const rule = "rapid: trunk chain + 0-3 sibling chains of where/eval/default/delete/shift/sample/derivative/changeDetect/stateCount/stateDuration/groupBy x generated points (stream and batch; on stream edges some points lack the tag from() groups by); " +
+const rule = "rapid: trunk chain + 0-3 sibling chains of where/eval/default/delete/shift/sample/derivative/changeDetect/stateCount/stateDuration/groupBy x generated points (stream and batch; on stream edges some points lack the tag from() groups by, and in every second case all points carry a third tag; groupBy(*) with exclude lists of 1-3 names in any order, groupBy lists of 1-3 tags in any order); " +
 	"non-trivial = a stateful node saw >=2 points of one group, or a fork in which a sibling writes a field/tag; distinct by case hash"
 
 const sec = int64(1e9)
@@ -309,18 +316,28 @@ func genNode(t *rapid.T, batch bool, idx string) Node {
 			n.As = []string{"sd" + idx}
 		}
 	case "groupBy":
-		switch rapid.IntRange(0, 3).Draw(t, "gb") {
+		switch rapid.IntRange(0, 5).Draw(t, "gb") {
 		case 0:
 			n.List = []string{"dc"}
 		case 1:
 			n.List = []string{"host", "dc"}
-		case 2:
+		case 2, 5:
 			n.Star = true
-			if rapid.Bool().Draw(t, "excl") {
-				n.Excl = []string{"dc"}
-			}
 		case 3:
 			n.List = []string{"host"}
+		case 4:
+			// 1-3 of the tags in the order the user wrote them (az is a tag the points of every
+			// second stream case carry)
+			n.List = rapid.Permutation([]string{"az", "dc", "host"}).Draw(t, "gbdims")[:rapid.IntRange(1, 3).Draw(t, "ngbdims")]
+		}
+		// .exclude(): 1-3 distinct tag names IN THE ORDER THE USER WROTE THEM (any order, not only
+		// the alphabetical one), in one call or one call per name; names of tags the points carry
+		// (host, dc, az, the tag a default node upstream may add) and one no point carries.
+		// Only groupBy(*) takes an exclude list (pipeline validation: "exclude requires '*'"); two
+		// of three groupBy(*) have one.
+		if n.Star && rapid.IntRange(0, 2).Draw(t, "excl") != 0 {
+			n.Excl = rapid.Permutation([]string{"az", "dc", "host", "newtag", "nosuchtag"}).Draw(t, "exclnames")[:rapid.SampledFrom([]int{1, 2, 2, 3}).Draw(t, "nexcl")]
+			n.ExclCalls = len(n.Excl) > 1 && rapid.IntRange(0, 2).Draw(t, "exclcalls") == 0
 		}
 		n.ByMeas = rapid.Bool().Draw(t, "bymeas")
 	}
@@ -371,12 +388,18 @@ func gen(t *rapid.T) Case {
 	}
 	// stream edges, every third case: some points lack the host tag
 	sparse := !c.Batch && rapid.IntRange(0, 2).Draw(t, "sparse") == 0
+	// stream edges, every second case: all points carry a third tag (az), so that groupBy(*) has
+	// up to three dimensions to keep or exclude
+	withAZ := !c.Batch && rapid.Bool().Draw(t, "withaz")
 	n := rapid.IntRange(0, 40).Draw(t, "n")
 	gaps := []int64{0, 1, sec / 2, sec, sec, sec, 2 * sec, 3 * sec}
 	for i := 0; i < n; i++ {
 		p := P{G: rapid.IntRange(0, groups-1).Draw(t, "g"), Gap: rapid.SampledFrom(gaps).Draw(t, "gap"), DC: rapid.IntRange(0, 1).Draw(t, "dc"), F: map[string]kit.FV{}}
 		if sparse {
 			p.NoHost = rapid.IntRange(0, 2).Draw(t, "nohost") == 0
+		}
+		if withAZ {
+			p.AZ = rapid.IntRange(1, 2).Draw(t, "az")
 		}
 		p.F["i"] = kit.I(int64(rapid.IntRange(0, 6).Draw(t, "i")))
 		p.F["f"] = kit.F(float64(rapid.IntRange(0, 12).Draw(t, "f")) / 2)
@@ -516,7 +539,11 @@ func (n Node) script() string {
 		if n.ByMeas {
 			s.WriteString(".byMeasurement()")
 		}
-		if len(n.Excl) > 0 {
+		if n.ExclCalls {
+			for _, x := range n.Excl {
+				fmt.Fprintf(&s, ".exclude('%s')", x)
+			}
+		} else if len(n.Excl) > 0 {
 			fmt.Fprintf(&s, ".exclude(%s)", q(n.Excl))
 		}
 	}
@@ -577,6 +604,9 @@ func (c Case) inputs() (pts []kit.Pt, batches []kit.Bt) {
 		tags := map[string]string{"host": fmt.Sprintf("h%d", p.G), "dc": fmt.Sprintf("d%d", p.DC)}
 		if p.NoHost && !c.Batch {
 			delete(tags, "host")
+		}
+		if p.AZ != 0 && !c.Batch {
+			tags["az"] = fmt.Sprintf("z%d", p.AZ)
 		}
 		if !c.Batch {
 			pt := kit.Pt{Name: "m", Tags: tags, Fields: fields, Time: t}
@@ -1109,12 +1139,28 @@ func run(c Case, cc *kit.Case) {
 	statefulKinds := map[string]bool{"sample": true, "derivative": true, "changeDetect": true, "stateCount": true, "stateDuration": true}
 	writers := map[string]bool{"eval": true, "default": true, "delete": true, "shift": true, "derivative": true, "stateCount": true, "stateDuration": true, "groupBy": true}
 	hasStateful, forkWriter := false, false
+	labelGroupBy := func(n Node) {
+		if n.Kind != "groupBy" || len(n.Excl) == 0 {
+			return
+		}
+		form := "groupBy(*)"
+		switch {
+		case len(n.Excl) == 1:
+			cc.Label(form + ".exclude:1-name")
+		case sort.StringsAreSorted(n.Excl):
+			cc.Label(form + ".exclude:>=2-names-alphabetical")
+		default:
+			cc.Label(form + ".exclude:>=2-names-not-alphabetical")
+		}
+	}
 	for _, n := range c.Trunk {
+		labelGroupBy(n)
 		cc.Label("node:" + n.Kind)
 		hasStateful = hasStateful || statefulKinds[n.Kind]
 	}
 	for _, f := range c.Forks {
 		for _, n := range f {
+			labelGroupBy(n)
 			cc.Label("node:" + n.Kind)
 			hasStateful = hasStateful || statefulKinds[n.Kind]
 			forkWriter = forkWriter || writers[n.Kind]
@@ -1130,6 +1176,9 @@ func run(c Case, cc *kit.Case) {
 	}
 	if perGroup[-1] > 0 {
 		cc.Label("point-lacks-host-tag")
+	}
+	if len(c.Pts) > 0 && c.Pts[0].AZ != 0 && !c.Batch {
+		cc.Label("points-with-third-tag-az")
 	}
 	two := false
 	for _, k := range perGroup {
@@ -1263,6 +1312,7 @@ var assumptions = []string{
 	"sample(N) keeps the 1st, N+1st, ... point of a group (the phase the implementation uses; 'keep every N-th point')",
 	"default() treats an empty tag value like a missing tag",
 	"stream points that lack a group-by tag belong to the group in which that tag has the empty value (models.ToGroupID; InfluxDB's GROUP BY does the same); the per-point nodes pass their tags on as they are (no empty tag is added); groupBy(*) groups such a point by the tags it has",
+	"groupBy(*).exclude(names...) groups each point by all the tags it carries except the named ones ('Exclude removes any tags from the group', pipeline/group_by.go), whatever the order in which the names are written and whether they are given in one .exclude() call or several (Exclude appends to the list); a name no point carries has no effect; exclude lists are generated only with groupBy(*) (pipeline validation rejects them otherwise: \"exclude requires '*'\"); the dimensions of a point are reported in ascending tag-name order whatever the order the user listed them in (models.Dimensions / the group id are built from the sorted names)",
 }
 
 func TestNodes(t *testing.T) {
